@@ -234,6 +234,30 @@ def c07_5(R):
             else:
                 R.fail([fn, "write(%s=0)" % CBU], "the unacked-bytes counter is cleared outside on_packet_sent: a pending ACK is forgotten", where=s.where(), instance="unacked-counter-reset")
     R.floor("resets of consumed_but_unacked_bytes", n, 4)
+    # every other write keeps the forced mark (usize::MAX) absorbing: `= MAX` or `= self.saturating_add(bytes)`
+    nup = 0
+    for b, s in census_field_writes(F, CBU):
+        fu = field_update(b, s)
+        if fu.op == "=" and fu.amount is not None and fu.amount.kind == "const" and fu.amount.scalar == 0:
+            continue
+        fn = owner_fn(b)
+        kind = None
+        if fu.op == "=" and fu.amount is not None:
+            t = trace(b, fu.amount)
+            if t.kind == "const" and (t.root[1].scalar == 2 ** 64 - 1 or (t.root[1].const_item or "").endswith("usize::MAX")):
+                kind = "mark"
+            elif t.kind == "call" and not t.fields and (t.root[1].resolved or "").endswith("saturating_add") and trace(b, t.root[1].args[0]).last_field == CBU:
+                kind = "saturating"
+                srcs = value_sources(b, t.root[1].args[1])
+                if not any(x[0] == "field" and x[1].endswith("Consumed.bytes") for x in srcs):
+                    kind = "saturating-by:" + sources_str(b, t.root[1].args[1])
+        if kind in ("mark", "saturating"):
+            nup += 1
+            R.ok("unacked-counter-update", fn, "forced mark" if kind == "mark" else "saturating_add(consumed bytes): a forced mark survives")
+        else:
+            how = kind or (fu.op if fu.op != "=" else (short_callee(trace(b, fu.amount).root[1].resolved) if fu.amount is not None and trace(b, fu.amount).kind == "call" else "other"))
+            R.fail([fn, "update(%s)" % CBU, how], "the unacknowledged-bytes counter is updated by something other than saturating_add(consumed bytes): a pending forced ACK (usize::MAX) can wrap away, or bytes are miscounted", where=s.where(), instance="unacked-counter-update")
+    R.floor("non-reset updates of consumed_but_unacked_bytes", nup, 2)
     offs = timer_calls(F, "turn_off", "Timers.ack_delay_timer")
     for b, t in offs:
         fn = owner_fn(b)
